@@ -84,6 +84,20 @@ func (c *compiler) compileLabeledStatement(v *ast.LabelledStatement, needResult 
 	}
 }
 
+// labelsLoop reports whether st is an iteration statement, possibly behind further labels (x: y: for(...)).
+func labelsLoop(st ast.Statement) bool {
+	for {
+		switch s := st.(type) {
+		case *ast.LabelledStatement:
+			st = s.Statement
+		case *ast.ForInStatement, *ast.ForOfStatement, *ast.ForStatement, *ast.WhileStatement, *ast.DoWhileStatement:
+			return true
+		default:
+			return false
+		}
+	}
+}
+
 func (c *compiler) updateEnterBlock(enter *enterBlock) {
 	scope := c.scope
 	stashSize, stackSize := 0, 0
@@ -591,6 +605,16 @@ func (c *compiler) findBreakBlock(label *ast.Identifier, isBreak bool) (res *blo
 				break
 			}
 		}
+		if !isBreak && found != nil && found.typ == blockLabel && found.loopLabel {
+			// an outer label of a labelled loop (x: y: for ...): continue targets the loop itself
+			// of the loops nested in 'found' the outermost one is the labelled loop
+			label := found
+			for b := c.block; b != label; b = b.outer {
+				if b.typ == blockLoop || b.typ == blockLoopEnum {
+					found = b
+				}
+			}
+		}
 		if !isBreak && found != nil && found.typ != blockLoop && found.typ != blockLoopEnum {
 			c.throwSyntaxErrorf(int(label.Idx)-1, "Illegal continue statement: '%s' does not denote an iteration statement", label.Name)
 		}
@@ -959,6 +983,7 @@ func (c *compiler) compileGenericLabeledStatement(v ast.Statement, needResult bo
 		outer:      c.block,
 		label:      label,
 		needResult: needResult,
+		loopLabel:  labelsLoop(v),
 	}
 	c.compileStatement(v, needResult)
 	c.leaveBlock()
